@@ -22,8 +22,8 @@ PYVT = "python3-vt"
 NATIVE_PY = "/venv/bin/python"
 
 
-def run_worker(mods, cid, mode, timeout_ms, wall=3600):
-    cmd = [PYVT, "-m", "pyvc.worker", ",".join(mods), cid, mode, str(timeout_ms)]
+def run_worker(mods, cid, mode, timeout_ms, only=None, wall=3600):
+    cmd = [PYVT, "-m", "pyvc.worker", ",".join(mods), cid, mode, str(timeout_ms), json.dumps(sorted(only)) if only is not None else "-"]
     t0 = time.time()
     env = dict(os.environ)
     env.pop("PYVC_DEBUG", None)
@@ -103,22 +103,35 @@ def main():
     t0 = time.time()
     tier = a.tier if a.tier in ("quick", "thorough") else "quick"
     mods = cfg["modules"]
-    tmo = cfg.get("timeout_ms", {}).get(tier, 30000 if tier == "quick" else 120000)
-    jobs = []
-    for cid in cfg["contracts"]:
-        jobs.append((cid, "prove"))
-        for b in cfg.get("refute", {}).get(tier, [2]):
-            if cid in cfg.get("no_refute", ()):
-                continue
-            jobs.append((cid, "refute:%d:%d" % (b, cfg.get("unroll", 4))))
+    tmo = cfg.get("timeout_ms", {}).get(tier, 12000 if tier == "quick" else 60000)
     results = []
     native = None
+    canary_contracts = set(cfg.get("canary_contracts", []))
     with cf.ThreadPoolExecutor(max_workers=a.jobs) as ex:
-        futs = {ex.submit(run_worker, mods, cid, mode, tmo): (cid, mode) for cid, mode in jobs}
         nfut = None
         if cfg.get("native"):
             nfut = ex.submit(run_native, ["bounded", cfg["native"], tier, str(seed)])
-        for f in cf.as_completed(futs):
+        # stage 1: proof obligations of every contract
+        futs = {ex.submit(run_worker, mods, cid, "prove", tmo): cid for cid in cfg["contracts"]}
+        # the canaries do not depend on stage 1
+        futs2 = {}
+        bounds = cfg.get("refute", {}).get(tier, [2])
+        for cid in canary_contracts:
+            for b in bounds:
+                futs2[ex.submit(run_worker, mods, cid, "refute:%d:%d" % (b, cfg.get("unroll", 4)), tmo, set())] = cid
+        for f in cf.as_completed(list(futs)):
+            r = f.result()
+            results.append(r)
+            # stage 2: bounded refuter on what stage 1 could not discharge (counter-models for the replay)
+            failing = {o["name"] for o in r.get("results", []) if o["kind"] == "obligation" and o["status"] != "discharged"}
+            if r.get("undecided_paths") or any("/inv" in n or "/cut." in n or "/pre[" in n for n in failing):
+                # a proof-internal obligation (invariant, cut, callee precondition) failed or a path was not
+                # analysable: the bounded refuter re-checks every clause of the contract without them
+                failing = None if (failing or r.get("undecided_paths")) else failing
+            if (failing is None or failing) and r["contract"] not in cfg.get("no_refute", ()) and not r.get("crash"):
+                for b in bounds:
+                    futs2[ex.submit(run_worker, mods, r["contract"], "refute:%d:%d" % (b, cfg.get("unroll", 4)), min(tmo, 10000), failing)] = r["contract"]
+        for f in cf.as_completed(list(futs2)):
             results.append(f.result())
         if nfut is not None:
             native = nfut.result()
@@ -185,6 +198,12 @@ def conclude(a, cfg, tier, seed, results, native, t0):
                 n_obl += 1
                 if o["status"] == "discharged":
                     n_dis += 1
+            if o["status"] == "candidate":
+                violations.append({"kind": "candidate", "name": o["name"], "mode": r["mode"], "model": o.get("model"),
+                                   "contract": r["contract"], "note": o.get("note", ""), "line": o.get("line", 0),
+                                   "solver": "%s: candidate model from the quantifier-free premises" % o["name"],
+                                   "in_baseline": False, "candidate": True})
+                continue
             if o["status"] == "refuted":
                 kf = matches_known(known, prop, "obligation", o["name"], None)
                 if kf is not None:
@@ -195,7 +214,7 @@ def conclude(a, cfg, tier, seed, results, native, t0):
                 violations.append({"kind": "obligation", "name": o["name"], "mode": r["mode"], "model": o.get("model"),
                                    "contract": r["contract"], "note": o.get("note", ""), "line": o.get("line", 0),
                                    "solver": "%s: sat (%s, %.0f ms)" % (o["name"], o.get("backend"), o.get("ms", 0)),
-                                   "in_baseline": o["name"] in baseline.get(mode, [])})
+                                   "in_baseline": o["name"] in baseline.get("prove", [])})
             elif o["status"] == "undecided" and mode == "prove":
                 undecided.append({"contract": r["contract"], "obligation": o["name"],
                                   "reason": o.get("reason") or "solver: unknown"})
@@ -215,7 +234,10 @@ def conclude(a, cfg, tier, seed, results, native, t0):
                 v["replayed"] = bool(nat.get("violated"))
             except Exception as e:
                 v["native"] = {"crash": str(e)}
-        (confirmed if v["replayed"] else unconfirmed).append(v)
+        if v["replayed"]:
+            confirmed.append(v)
+        elif not v.get("candidate"):
+            unconfirmed.append(v)
 
     # ---- native bounded stand-in
     nat_fail = []
@@ -232,7 +254,7 @@ def conclude(a, cfg, tier, seed, results, native, t0):
 
     # ---- vacuity guards
     if not a.update_baseline:
-        for mode in ("prove", "refute"):
+        for mode in ("prove",):
             missing = sorted(set(baseline.get(mode, [])) - produced[mode])
             if missing and not faults:
                 # an obligation of the reference tree was not generated: the function changed shape (e.g. a loop
@@ -320,10 +342,10 @@ def conclude(a, cfg, tier, seed, results, native, t0):
 
     if a.update_baseline:
         allb = load_baseline()
-        allb[prop] = {"prove": sorted(produced["prove"]), "refute": sorted(produced["refute"])}
+        allb[prop] = {"prove": sorted(produced["prove"])}
         os.makedirs(os.path.join(VERIF, "baseline"), exist_ok=True)
         json.dump(allb, open(os.path.join(VERIF, "baseline", "obligations.json"), "w"), indent=1, sort_keys=True)
-        print("baseline updated: %d prove / %d refute obligations" % (len(produced["prove"]), len(produced["refute"])))
+        print("baseline updated: %d proof obligations" % len(produced["prove"]))
 
     # ---- evidence
     wall = time.time() - t0
